@@ -5,8 +5,8 @@
 set -u
 name=$1
 sd=/verif/seeded/$name
-wt=/tmp/confirm-wt
-export CARGO_TARGET_DIR=/tmp/confirm-target CARGO_INCREMENTAL=0 CARGO_PROFILE_DEV_DEBUG=0 CARGO_PROFILE_TEST_DEBUG=0 CARGO_NET_OFFLINE=true
+wt=${CONFIRM_WT:-/tmp/confirm-wt}
+export CARGO_TARGET_DIR=${CONFIRM_TARGET:-/tmp/confirm-target} CARGO_INCREMENTAL=0 CARGO_PROFILE_DEV_DEBUG=0 CARGO_PROFILE_TEST_DEBUG=0 CARGO_NET_OFFLINE=true
 if [ ! -d $wt ]; then git -C /repo worktree add -q --detach $wt HEAD; fi
 cd $wt && git checkout -q --detach $(git -C /repo rev-parse HEAD) && git checkout -q -- . && git clean -qfd
 democmd=$(python3 -c "import json,re,sys; c=json.load(open('$sd/meta.json'))['demo_cmd']; c=re.sub(r'\b[A-Z_]+=\S+\s+','',c); c=re.sub(r'^cd \S+ && ','',c); print(c)")
